@@ -493,6 +493,16 @@ Qed.
 (* ------------------------------------------------------------------ *)
 (* the invariant of legal histories                                     *)
 (* ------------------------------------------------------------------ *)
+(* a report of a trial that is not running (late report after STOP / PAUSE / failure / completion) is ignored:
+   nothing is stored, no pending evaluation is registered, the earlier decision is repeated; and the
+   on_trial_remove the tuner issues for that decision leaves the searcher state alone *)
+Lemma late_report_ignored cfg st t r v cont rec : find t (trials st) = Some rec -> dec rec <> CONTINUE ->
+  on_trial_result cfg st t r v cont = Ok (st, dec rec) /\ srch (on_trial_remove st t) = srch st.
+Proof.
+  intros Hf Hd. unfold on_trial_result, on_trial_remove. rewrite Hf. split; [|reflexivity].
+  destruct (dec rec); [congruence | reflexivity | reflexivity].
+Qed.
+
 Lemma crit_compat cfg v v' : (v == v')%Q -> (crit cfg v == crit cfg v')%Q.
 Proof. unfold crit. intro H. destruct (maximize cfg); [rewrite H; reflexivity | exact H]. Qed.
 
@@ -1370,15 +1380,19 @@ Proof.
   destruct (lur_step _ _ _) as [[du2 rec3]|]; cbn [bind]; [|discriminate]. intro H; inversion H; reflexivity.
 Qed.
 
+Lemma report_core_reps cfg st t r v cont st' d : report_core cfg st t r v cont = Ok (st', d) -> reps st' = reps st.
+Proof.
+  unfold report_core. destruct (on_trial_result _ _ _ _ _ _) as [[st1 d1]|] eqn:E; cbn [bind]; [|discriminate].
+  apply on_trial_result_reps in E. intro H. inversion H; subst. rewrite <- E.
+  destruct d1; try reflexivity; unfold on_trial_remove; destruct (find t (trials st1)); reflexivity.
+Qed.
+
 Lemma step_reps cfg st e st' d : step cfg st e = Ok (st', d) ->
   reps st' = match e with Report t r v _ => note_rep (t, r) v (reps st) | _ => reps st end.
 Proof.
-  destruct e as [t b|t r v cont|t b|t r v|t]; cbn [step].
+  destruct e as [t b|t r v cont|t b|t r v|t|t r v]; cbn [step]; try (intro H; exact (report_core_reps _ _ _ _ _ _ _ _ H)).
   - unfold on_start. destruct (find t (trials st)); [discriminate|]. destruct (register_all _ _ _); cbn [bind]; [|discriminate].
     intro H; inversion H; reflexivity.
-  - destruct (on_trial_result _ _ _ _ _ _) as [[st1 d1]|] eqn:E; cbn [bind]; [|discriminate].
-    apply on_trial_result_reps in E. cbn in E. intro H. inversion H; subst. rewrite <- E.
-    destruct d1; try reflexivity; unfold on_trial_remove; destruct (find t (trials st1)); reflexivity.
   - unfold on_resume. destruct (sty cfg); [discriminate|]. destruct (find t (trials st)); [|discriminate].
     destruct (paused_at _ _); [|discriminate]. destruct (negb _); [discriminate|]. destruct (decision_eqb _ _); [discriminate|].
     destruct (register_all _ _ _); cbn [bind]; [|discriminate]. intro H; inversion H; reflexivity.
@@ -1398,7 +1412,7 @@ Lemma report_idle cfg st t r v cont st' d :
   step cfg st (Report t r v cont) = Ok (st', Some d) -> d <> CONTINUE ->
   exists rec', find t (trials st') = Some rec' /\ dec rec' = PAUSE.
 Proof.
-  cbn [step]. set (st0 := {| srch := srch st; trials := trials st; reps := _ |}).
+  cbn [step]. unfold report_core. set (st0 := {| srch := srch st; trials := trials st; reps := _ |}).
   destruct (on_trial_result cfg st0 t r v cont) as [[st1 d1]|] eqn:E; cbn [bind]; [|discriminate].
   intros H Hd. inversion H; subst.
   assert (Hf : find t (trials st1) <> None).
@@ -1469,7 +1483,7 @@ Lemma pending_cleared cfg h st0 e st d : wf_config cfg = true -> legal_hist cfg 
 Proof.
   intros WF HL HR Hl HS He p Hin. pose proof (legal_run_inv _ _ _ WF HL HR) as HI.
   destruct (step_inv cfg WF st0 e HI Hl) as [st' [d' [E HI']]]. rewrite E in HS. inversion HS; subst st' d'. clear HS.
-  destruct e as [t b|t r v cont|t b|t r v|t]; cbn in He; try discriminate.
+  destruct e as [t b|t r v cont|t b|t r v|t|t r v]; cbn in He; try discriminate.
   - destruct d as [d|]; [|discriminate]. destruct (report_idle _ _ _ _ _ _ _ _ E) as [rec' [Hf Hd]].
     { intro Hd. rewrite Hd in He. discriminate. }
     destruct HI' as [_ [_ Hall]]. specialize (Hall t). rewrite Hf in Hall. cbn [trial_of] in Hin.
@@ -1673,12 +1687,3 @@ Proof.
   - inversion Hnd; subst. apply IH. assumption.
 Qed.
 
-(* a report of a trial that is not running (late report after STOP / PAUSE / failure / completion) is ignored:
-   nothing is stored, no pending evaluation is registered, the earlier decision is repeated; and the
-   on_trial_remove the tuner issues for that decision leaves the searcher state alone *)
-Lemma late_report_ignored cfg st t r v cont rec : find t (trials st) = Some rec -> dec rec <> CONTINUE ->
-  on_trial_result cfg st t r v cont = Ok (st, dec rec) /\ srch (on_trial_remove st t) = srch st.
-Proof.
-  intros Hf Hd. unfold on_trial_result, on_trial_remove. rewrite Hf. split; [|reflexivity].
-  destruct (dec rec); [congruence | reflexivity | reflexivity].
-Qed.
